@@ -448,6 +448,58 @@ func runC20(c *Ctx) {
 			})
 			if !(ok1 && ok2 && ok3 && ok4) {
 				r.Fail("worker/done-cleanup-order", key, p.posStr(lit.pos), "expected exactly one each of: worker function call, WaitGroup.Done, cleanupWorker, running.Store(false)")
+			} else if hasDefer := func() bool {
+				for _, pt := range []Point{run, done, clean, clr} {
+					if _, isDefer := lf.nodeAt(pt).(*ast.DeferStmt); isDefer {
+						return true
+					}
+				}
+				return false
+			}(); hasDefer {
+				// deferred bookkeeping: the effective order is the direct top-level events followed by
+				// the deferred ones in reverse registration order; every event must be unconditional
+				names := []string{"worker function", "Done", "cleanupWorker", "running=false"}
+				evOf := func(n ast.Node) int {
+					for i, pt := range []Point{run, done, clean, clr} {
+						if lf.nodeAt(pt) == n {
+							return i
+						}
+					}
+					return -1
+				}
+				var direct, deferred []int
+				topLevel := 0
+				for _, st := range litBody.List {
+					if i := evOf(st); i >= 0 {
+						topLevel++
+						if _, isDefer := st.(*ast.DeferStmt); isDefer {
+							deferred = append([]int{i}, deferred...)
+						} else {
+							direct = append(direct, i)
+						}
+					}
+				}
+				eff := append(direct, deferred...)
+				bad := ""
+				if topLevel != 4 {
+					bad = "with deferred bookkeeping every one of worker function, Done, cleanupWorker and running=false must be an unconditional top-level statement of the goroutine (cannot order them otherwise)"
+				} else {
+					for i := range eff {
+						if eff[i] != i {
+							var seq []string
+							for _, e := range eff {
+								seq = append(seq, names[e])
+							}
+							bad = "effective order (defers run last-in first-out) is " + strings.Join(seq, ", ") + "; required: worker function, Done, cleanupWorker, running=false"
+							break
+						}
+					}
+				}
+				if bad != "" {
+					r.Fail("worker/done-cleanup-order", key, p.posStr(lit.pos), bad)
+				} else {
+					r.Pass("worker/done-cleanup-order", key, p.posStr(lit.pos), "worker function, then (deferred, LIFO) Done, cleanupWorker, running=false")
+				}
 			} else {
 				order := []Point{run, done, clean, clr}
 				names := []string{"worker function", "Done", "cleanupWorker", "running=false"}
